@@ -444,7 +444,7 @@ def check_valid_cpd(case, out):
 
 SUBCHECKS = [
     Sub("cpd_ops", check_cpd, strategy=lambda tier: cpd_case(), n={"quick": 400, "thorough": 6000},
-        shards={"quick": 8, "thorough": 16}, doc="TabularCPD construction and every transformation vs the column-meaning reference, state names, immutability"),
+        shards={"quick": 8, "thorough": 16}, fuzz={"thorough": (2, 300)}, doc="TabularCPD construction and every transformation vs the column-meaning reference, state names, immutability"),
     Sub("check_model", check_model_case, strategy=lambda tier: model_case(), n={"quick": 250, "thorough": 3000},
         shards={"quick": 4, "thorough": 8}, doc="BayesianNetwork.check_model on valid specs and on single-defect variants; accepted models are consistent and normalised"),
     Sub("is_valid_cpd", check_valid_cpd, strategy=lambda tier: valid_case(), n={"quick": 300, "thorough": 3000},
